@@ -9,6 +9,9 @@
     and z3 proves, coefficient by coefficient and for all coupling values, equality with the textbook sum built from the
     independent neighbour relation:  H_TFIM = -sum_<ij> J Z_i Z_j - h sum_i X_i,  H_Heis = sum_<ij> (Jx XX + Jy YY + Jz ZZ).
     Hermiticity: every coefficient of the sentence is real for real couplings (proved).
+(c) Custom edges: Lattice(custom_edges=[[(a, b), (operators, c_k)], ...]) followed by spin_hamiltonian, with one SYMBOLIC coefficient per
+    custom edge: z3 proves every Pauli-word coefficient equal to the sum over the translated copies of each edge (every unit cell whose
+    translate stays inside the lattice for open axes, wrapped for periodic ones), for edges pointing forwards and backwards.
 Fermionic models (fermi_hubbard, emery, haldane) depend on the fermion-to-qubit mapping (C53) and kitaev / non-Cartesian shapes on
 geometry conventions that were not re-derived independently: outside.
 """
@@ -182,10 +185,133 @@ def _num_ham(case, vals):
     return worst > 1e-9, f"{model} on {shape} {n} bc {bc} order {order} ({mode}): max coefficient deviation {worst:.3g} at word {where}"
 
 
+# ---------------------------------------------------------------- custom edges (translated to every unit cell) through spin_hamiltonian
+# (n_cells, sites per unit cell, boundary condition, [(site a, site b, operators)]): one symbolic coefficient per custom edge
+CUSTOM_CASES = [
+    ([3, 3], 1, False, [(0, 1, "XX"), (0, 3, "YY"), (0, 4, "XY")]),
+    ([3, 3], 1, False, [(1, 0, "XZ"), (3, 1, "ZY"), (4, 0, "XX")]),          # edges stepping backwards along an axis
+    ([3, 4], 1, [True, False], [(0, 1, "XX"), (1, 4, "ZZ"), (5, 0, "YZ")]),
+    ([4, 3], 1, [False, True], [(3, 0, "XY"), (0, 2, "ZZ"), (0, 7, "YY")]),
+    ([4], 1, False, [(0, 2, "XX"), (3, 2, "YZ")]),
+    ([5], 1, True, [(0, 2, "ZZ"), (1, 0, "XY")]),
+    ([2, 2], 2, False, [(0, 1, "XX"), (1, 2, "YY"), (1, 4, "ZZ"), (3, 0, "XZ")]),
+    ([3, 2], 2, [True, False], [(0, 1, "XX"), (1, 2, "YY"), (0, 5, "ZX"), (6, 1, "YZ")]),
+    ([2, 2, 3], 1, False, [(0, 1, "XX"), (0, 3, "YY"), (0, 6, "ZZ"), (7, 0, "XY"), (2, 0, "ZX")]),
+    ([2, 3, 2], 1, [False, True, False], [(0, 2, "XX"), (1, 0, "YZ"), (6, 1, "ZZ")]),
+]
+
+
+def custom_expected(n_cells, n_sl, bc, edges, coeffs):
+    """independent translation model: {pauli word: coefficient}; site = row-major cell index * n_sl + sublattice"""
+    dim = len(n_cells)
+    bcl = [bc] * dim if isinstance(bc, bool) else list(bc)
+
+    def unravel(c):
+        out = []
+        for m in reversed(n_cells):
+            out.append(c % m)
+            c //= m
+        return out[::-1]
+
+    def ravel(cell):
+        c = 0
+        for x, m in zip(cell, n_cells):
+            c = c * m + x
+        return c
+
+    exp = {}
+    for (a, b, ops), co in zip(edges, coeffs):
+        ca, sa = divmod(a, n_sl)
+        cb, sb = divmod(b, n_sl)
+        t = [y - x for x, y in zip(unravel(ca), unravel(cb))]
+        for cell in itertools.product(*[range(m) for m in n_cells]):
+            tgt = []
+            for ax in range(dim):
+                y = cell[ax] + t[ax]
+                if bcl[ax]:
+                    y %= n_cells[ax]
+                elif not 0 <= y < n_cells[ax]:
+                    tgt = None
+                    break
+                tgt.append(y)
+            if tgt is None:
+                continue
+            i, j = ravel(cell) * n_sl + sa, ravel(tgt) * n_sl + sb
+            key = tuple(sorted({i: ops[0], j: ops[1]}.items()))
+            exp[key] = exp.get(key, 0) + co
+    return exp
+
+
+def custom_build(S, case, concrete=None):
+    n_cells, n_sl, bc, edges = case
+    dim = len(n_cells)
+    co = []
+    for k in range(len(edges)):
+        if concrete is not None:
+            co.append(concrete.get(f"c{k}", 0.3 + 0.2 * k))
+        else:
+            v = S.real(f"c{k}")
+            S.constrain(">0", sx.P.sub(v.p, sx.P.const(sx.F(1, 1000))))
+            co.append(v)
+    positions = [[0.0] * dim] if n_sl == 1 else [[0.0] * dim, [0.3] + [0.4] * (dim - 1)]
+    lat = qp.spin.Lattice(n_cells=n_cells, vectors=np.eye(dim).tolist(), positions=positions, boundary_condition=bc,
+                          custom_edges=[[(a, b), (ops, c)] for (a, b, ops), c in zip(edges, co)])
+    H = qp.spin.spin_hamiltonian(lat)
+    return H, custom_expected(n_cells, n_sl, bc, edges, co)
+
+
+def _num_custom(case, vals):
+    try:
+        H, exp = custom_build(None, case, concrete=vals)
+        got = sentence_of(H)
+    except Exception as e:  # noqa: BLE001
+        return True, f"custom edges {case}: raised {e!r}"
+    keys = set(got) | set(exp)
+    bad = [(k, complex(got.get(k, 0)), complex(exp.get(k, 0))) for k in keys if abs(complex(got.get(k, 0)) - complex(exp.get(k, 0))) > 1e-9]
+    return bool(bad), f"spin_hamiltonian on Lattice(n_cells={case[0]}, {case[1]} site(s) per cell, boundary {case[2]}, custom_edges={case[3]}): {len(bad)} Pauli words differ from the translated copies, e.g. {sorted(bad)[:3]}"
+
+
+def custom_work(case):
+    case = (list(case[0]), case[1], case[2], [tuple(e) for e in case[3]])
+    name = f"custom edges {case[3]} on n_cells={case[0]}, {case[1]} site(s) per cell, boundary {case[2]}"
+    sx.install_shims()
+
+    def b(S):
+        H, exp = custom_build(S, case)
+        return sentence_of(H), exp
+
+    def consume(S, v, i):
+        got, exp = v
+
+        def rp(model_):
+            vals = dict(model_.get("vars", {}))
+            ok, obs = _num_custom(case, vals)
+            return ok, {"kind": "custom", "case": [case[0], case[1], case[2], [list(e) for e in case[3]]], "values": vals, "observed": obs}
+
+        keys = sorted(set(got) | set(exp))
+        return [obl.prove(S, f"{name} (path {i}): every Pauli-word coefficient ({len(keys)} words) == sum over the translated copies of each edge", [got.get(k, 0) for k in keys], [exp.get(k, 0) for k in keys],
+                          replay=rp, signature="custom_edges", timeout=60)]
+
+    try:
+        return obl.run_instance(name, b, consume, max_paths=64)
+    except (TypeError, AttributeError, IndexError, KeyError, ValueError) as e:
+        import traceback
+
+        tb = traceback.format_exc(limit=6)[-600:]
+        ok, obs = _num_custom(case, {})
+        if ok:
+            return [{"name": name, "status": "violated", "symbols": ["coefficients"], "nontrivial": True, "queries": 0, "signature": "custom_edges", "detail": obs,
+                     "replay": {"kind": "custom", "case": [case[0], case[1], case[2], [list(e) for e in case[3]]], "values": {}, "observed": obs}}]
+        return [{"name": name, "status": "unsupported", "detail": f"{e!r} {tb}"}]
+
+
 def replay(p):
     if p["kind"] == "lattice":
         pr = lattice_problem(p["shape"], p["n"], p["bc"], p["order"])
         return bool(pr), pr or "lattice agrees"
+    if p["kind"] == "custom":
+        c = p["case"]
+        return _num_custom((c[0], c[1], c[2], [tuple(e) for e in c[3]]), p["values"])
     return _num_ham(tuple(p["case"]), p["values"])
 
 
@@ -215,7 +341,7 @@ def ham_work(case):
         return recs
 
     try:
-        return obl.run_instance(name, b, consume, max_paths=64)
+        return obl.run_instance(name, b, consume, max_paths=160)
     except (TypeError, AttributeError, IndexError, KeyError, ValueError) as e:
         import traceback
 
@@ -227,19 +353,22 @@ def ham_work(case):
 
 
 def _dispatch(it):
+    if it[0] == "custom":
+        return custom_work(it[1])
     return lattice_work(it[1]) if it[0] == "lattice" else ham_work(it[1])
 
 
 def run(ctx):
     ctx.level = "other"
-    items = [("lattice", c) for c in LATTICE_CASES] + [("ham", c) for c in HAM_CASES]
+    items = [("lattice", c) for c in LATTICE_CASES] + [("ham", c) for c in HAM_CASES] + [("custom", c) for c in CUSTOM_CASES]
     if ctx.only:
         items = [it for it in items if ctx.only in str(it)]
     ctx.shapes = len(items)
     ctx.encode(qp.spin.generate_lattice, qp.spin.transverse_ising, qp.spin.heisenberg)
     ctx.bound(lattices=f"{len(LATTICE_CASES)} Cartesian lattices (chain, square, rectangle, cubic; sizes up to 5x5 / 3x3x3; open, periodic and mixed boundaries; neighbour orders 1-2; periodic axes longer than 2*order)",
               hamiltonians=f"{len(HAM_CASES)} (model, lattice) pairs with symbolic positive couplings (per-order lists and full coupling matrices)",
-              outside="triangle, honeycomb, kagome, lieb, bcc, fcc, diamond lattices and custom positions/edges; fermi_hubbard, emery, haldane (fermion mapping), kitaev, spin_hamiltonian; negative or zero couplings (terms vanish)")
+              custom_edges=f"{len(CUSTOM_CASES)} lattices (1-3 dimensions, 1-2 sites per unit cell, open / periodic / mixed boundaries) with 2-5 custom edges each, incl. edges stepping backwards along an axis; one symbolic coefficient per edge, through spin_hamiltonian",
+              outside="triangle, honeycomb, kagome, lieb, bcc, fcc, diamond lattices; custom nodes; non-orthogonal lattice vectors; fermi_hubbard, emery, haldane (fermion mapping), kitaev, spin_hamiltonian; negative or zero couplings (terms vanish)")
     ctx.assume(*sx.SHIM_NOTES[:3], "couplings are symbolic reals > 1e-3, so that no term of the sum falls under the 1e-8 tolerance of simplify()", "oracle: row-major site numbering and minimal-image distances")
     ctx.rule = "lattices: one structural obligation per lattice; Hamiltonians: z3 obligations per (model, lattice, coupling form) over all coupling values"
     ctx.pmap(_dispatch, items, timeout_each=900)
